@@ -28,8 +28,12 @@ pub fn normalise_sig(sig: &str) -> String {
         if is_kind {
             let kind: String = p.split('-').next().unwrap_or("").to_string();
             let mut q = String::new();
+            // `-lang` only discriminates for the op kinds whose replay re-parses recorded text
+            let reparses = ["SetUserInput", "SetUserArrayFormula", "AutoFill", "Paste", "NewDefinedName", "UpdateDefinedName", "DeleteDefinedName", "AddCf", "UpdateCf"]
+                .iter()
+                .any(|x| kind.starts_with(x));
             for k in KEEP {
-                if p.contains(k) {
+                if p.contains(k) && (k != "-lang" || reparses) {
                     q.push_str(k);
                 }
             }
